@@ -1,29 +1,25 @@
 import PsVerif.Generated.Structure
+import PsVerif.Props.Ties.Within
 /-! Ties: map iteration sites, clock/address use (C17, C19). -/
 namespace PsVerif.Props.Ties
 open PsVerif.Generated
 
-/-- multiset inclusion: every entry of `xs` occurs in `allowed` at least as often.  A site that disappears
-from the source cannot hurt; a new one (or one more of a kind) breaks the tie and has to be reviewed. -/
-def within (xs allowed : List (String × String × String)) : Bool :=
-  xs.all (fun x => xs.count x ≤ allowed.count x)
-
 /-! ## determinism (C17): every place where a Go map is iterated, and no clock/random/address use -/
 def allowedMapSites : List (String × String × String) :=
     [(".", "NewInterpreter", "maps.Clone cidInit"),
-     (".", "ReadCMap", "maps.Keys intp.CMapDirectory"),
-     (".", "bCopy", "range a"),
-     (".", "bForall", "range obj"),
-     ("afm", "Metrics.FontBBoxPDF", "range f.Glyphs"),
-     ("afm", "Metrics.GlyphList", "maps.Keys f.Glyphs"),
-     ("afm", "Metrics.Write", "maps.Keys g.Ligatures"),
-     ("type1", "Font.FontBBox", "range f.Glyphs"),
-     ("type1", "Font.FontBBoxPDF", "range f.Glyphs"),
-     ("type1", "Font.GlyphList", "maps.Keys f.Glyphs"),
-     ("type1", "Font.WidthsMapPDF", "range f.Glyphs"),
-     ("type1", "Font.encodeCharstrings", "range f.Glyphs"),
-     ("type1", "Read", "maps.Keys cs"),
-     ("type1", "Read", "range intp.FontDirectory")] 
+     (".", "ReadCMap", "maps.Keys (Interpreter).CMapDirectory"),
+     (".", "bCopy", "range local:Dict"),
+     (".", "bForall", "range local:Dict"),
+     ("afm", "Metrics.FontBBoxPDF", "range (Metrics).Glyphs"),
+     ("afm", "Metrics.GlyphList", "maps.Keys (Metrics).Glyphs"),
+     ("afm", "Metrics.Write", "maps.Keys (GlyphInfo).Ligatures"),
+     ("type1", "Font.FontBBox", "range (Font).Glyphs"),
+     ("type1", "Font.FontBBoxPDF", "range (Font).Glyphs"),
+     ("type1", "Font.GlyphList", "maps.Keys (Font).Glyphs"),
+     ("type1", "Font.WidthsMapPDF", "range (Font).Glyphs"),
+     ("type1", "Font.encodeCharstrings", "range (Font).Glyphs"),
+     ("type1", "Read", "maps.Keys local:Dict"),
+     ("type1", "Read", "range (Interpreter).FontDirectory")]
 theorem map_sites : within Structure.mapSites allowedMapSites = true := by decide
 
 theorem no_clock_no_addr : Structure.clockSites = [] := rfl
